@@ -237,6 +237,38 @@ def _run(V, work, tier):
                       {"orig": x["orig"], "kind": x["kind"], "reader": k, "tree": str(w["trees"])[:600]})
             elif not w["ok"]:
                 V.add("long-comment-rejected" if "comment exceeds maximum token size" in str(w.get("msg")) else None, "a long separator (%s) makes %s reject %s: %s" % (x["kind"], k, json.dumps(x["orig"]), str(w.get("msg"))[:100]), {"orig": x["orig"], "kind": x["kind"], "reader": k})
+    # ---- texts LONGER than the window, made of ordinary tokens (numbers of many digits, floats with exponents, symbols,
+    # strings, quote marks): every token that happens to straddle a window edge reads as ONE token.  The same text behind
+    # 0..7 leading blanks moves the edges across the tokens.
+    def big_text(r):
+        toks = []
+        size = 0
+        while size < 300000:
+            k = r.random()
+            t = (str(r.randrange(10 ** 11, 10 ** 17)) if k < 0.4 else "-%d" % r.randrange(10 ** 5, 10 ** 9) if k < 0.36 else "%d.%de+0%d" % (r.randrange(1, 10), r.randrange(10 ** 8, 10 ** 15), r.randrange(1, 9)) if k < 0.55
+                 else "sym-" + "ab" * r.randrange(1, 9) if k < 0.7 else '"' + "s t" * r.randrange(1, 7) + '"' if k < 0.8 else "'q%d" % r.randrange(1000) if k < 0.88 else ":kw%d" % r.randrange(1000) if k < 0.94 else "#x%x" % r.randrange(10 ** 9))
+            toks.append(t)
+            size += len(t) + 1
+        return toks
+    bigs = []
+    for bi in range(3 if thorough else 1):
+        toks = big_text(rnd)
+        for lead in range(8):
+            bigs.append({"id": len(bigs), "text": " " * lead + "(" + " ".join(toks) + ")", "n": len(toks)})
+    br = {r["id"]: r for r in driver_json(binary, ["reader"], [{"id": x["id"], "text": x["text"]} for x in bigs], timeout=3300)}
+    for x in bigs:
+        r = br[x["id"]]
+        ref = r["strict"]
+        if not ref["ok"] or len(ref["trees"]) != 1 or len(ref["trees"][0].get("c") or []) != x["n"]:
+            V.add(None, "a long list of %d ordinary tokens does not read back as %d elements (string reader)" % (x["n"], x["n"]), {"n": x["n"], "lead": len(x["text"]) - len(x["text"].lstrip()), "result": str(ref)[:300]})
+            continue
+        for k in ("ft", "fmt", "strict_io", "fmt_io"):
+            w = r[k]
+            if not w["ok"] or [rnode(y) for y in w["trees"]] != [rnode(y) for y in ref["trees"]]:
+                n2 = len((w.get("trees") or [{}])[0].get("c") or []) if w["ok"] else -1
+                V.add(None, "a text longer than the scanner's window reads differently through %s: %d elements instead of %d (%d leading blanks)" % (k, n2, x["n"], len(x["text"]) - len(x["text"].lstrip())),
+                      {"reader": k, "n": x["n"], "got": n2})
+    V.coverage["long_texts"] = len(bigs)
     V.coverage["long_separator_variants"] = len(longs)
     V.coverage["layout_variants"] = len(lay)
     # ---- values BUILT by evaluation (parsed trees never share nodes, these do): deep nesting around a list object that
